@@ -14,7 +14,10 @@ pub uninterp spec fn node_len(b: int, id: PageNodeID) -> nat;
 pub uninterp spec fn node_leaf(b: int, id: PageNodeID) -> bool;
 pub uninterp spec fn node_child(b: int, id: PageNodeID, i: int) -> u64;
 pub uninterp spec fn node_height(b: int, id: PageNodeID) -> nat;
-pub uninterp spec fn node_canon(b: int, id: PageNodeID) -> PageNodeID;      // PageNode::id(): a page that has an in-memory node answers with the node's id
+pub uninterp spec fn node_canon(b: int, id: PageNodeID) -> PageNodeID;
+// the slot (slot-before rule) and the exact-hit flag the node's binary search answers for a key
+pub uninterp spec fn node_slot(b: int, id: PageNodeID, key: Seq<u8>) -> usize;
+pub uninterp spec fn node_exact(b: int, id: PageNodeID, key: Seq<u8>) -> bool;      // PageNode::id(): a page that has an in-memory node answers with the node's id
 spec fn tree_ok(b: int) -> bool {
     &&& forall|id: PageNodeID| #![trigger node_len(b, id)] node_len(b, id) <= usize::MAX
     &&& forall|id: PageNodeID| #![trigger node_leaf(b, id)] node_leaf(b, id) || node_len(b, id) > 0
@@ -23,6 +26,7 @@ spec fn tree_ok(b: int) -> bool {
     &&& forall|id: PageNodeID| #![trigger node_canon(b, id)] node_len(b, node_canon(b, id)) == node_len(b, id)
             && node_leaf(b, node_canon(b, id)) == node_leaf(b, id) && node_height(b, node_canon(b, id)) == node_height(b, id)
             && (forall|i: int| node_child(b, node_canon(b, id), i) == node_child(b, id, i))
+            && (forall|k: Seq<u8>| node_slot(b, node_canon(b, id), k) == node_slot(b, id, k) && node_exact(b, node_canon(b, id), k) == node_exact(b, id, k))
 }
 
 #[verifier::external_body]
@@ -71,6 +75,8 @@ impl<'a> PageNode<'a> {
         ensures
             node_len(self.g_bucket@, self.g_id@) > 0 ==> r.0 < node_len(self.g_bucket@, self.g_id@),
             node_len(self.g_bucket@, self.g_id@) == 0 ==> r.0 == 0 && !r.1,
+            // what the node's own binary search answers for this key (proved per node in unit pagenode: PageNode_index)
+            r.0 == node_slot(self.g_bucket@, self.g_id@, key@), r.1 == node_exact(self.g_bucket@, self.g_id@, key@),
     { unimplemented!() }
     // panics on a branch; None past the end
     #[verifier::external_body]
@@ -95,4 +101,6 @@ impl<'b> InnerBucket<'b> {
 // stub U16: `key.as_ref()` for T: AsRef<[u8]>
 #[verifier::external_body]
 fn as_ref_bytes<T: AsRef<[u8]>>(k: &T) -> (r: &[u8])
+    ensures r@ == key_bytes(*k),
 { unimplemented!() }
+pub uninterp spec fn key_bytes<T>(k: T) -> Seq<u8>;
